@@ -67,6 +67,10 @@ pub enum Op {
     /// prepare_commit + payload, commit_future() (not awaited), delete_term(uid) - which belongs to the NEXT transaction -,
     /// then wait for the commit
     CommitThenDelete(u16),
+    /// commit while the end of a merge of committed segments is in flight (SimDir only, otherwise a plain commit): the
+    /// merge thread is held at its first file, the commit is started and held inside its meta.json write, the merge
+    /// runs to its end (its end_merge task queues behind the commit), then the commit is released
+    CommitDuringMergeEnd,
     /// prepare_commit, then abort
     PrepareAbort,
     Rollback,
@@ -103,6 +107,7 @@ pub fn op_strategy(with_delete_all: bool) -> BoxedStrategy<Op> {
         if with_delete_all { 1 } else { 1 } => (add_strategy(), 6u8..11).prop_map(|(a, n)| Op::BigRun(a, n)),
         2 => Just(Op::PrepareCommit),
         2 => any::<u16>().prop_map(Op::CommitThenDelete),
+        1 => Just(Op::CommitDuringMergeEnd),
         2 => Just(Op::PrepareAbort),
         2 => Just(Op::Rollback),
         3 => any::<u16>().prop_map(Op::Merge),
@@ -263,6 +268,7 @@ pub struct HistStats {
     pub delete_all_excluded: u32,
     pub gc: u32,
     pub big_runs: u32,
+    pub commits_during_merge_end: u32,
 }
 
 impl Env {
@@ -544,7 +550,7 @@ impl Env {
                 self.last_opstamp = None;
                 self.dirty = true;
             }
-            Op::Commit | Op::PrepareCommit | Op::CommitThenDelete(_) => {
+            Op::Commit | Op::PrepareCommit | Op::CommitThenDelete(_) | Op::CommitDuringMergeEnd => {
                 let payload = format!("c{}", self.commits + 1);
                 let span_start = match &self.dir {
                     DirHandle::Sim(sd) => sd.log_len(),
@@ -553,8 +559,11 @@ impl Env {
                 let late_target = if let Op::CommitThenDelete(raw) = op { self.del_uid_target(*raw) } else { None };
                 let uid_field = self.f.uid;
                 let mut late_delete: Option<(u64, u64)> = None;
+                let gated: Option<u64> = if matches!(op, Op::CommitDuringMergeEnd) { self.commit_during_merge_end(&payload)? } else { None };
                 let w = self.writer.as_mut().unwrap();
-                let o = if let Op::CommitThenDelete(_) = op {
+                let o = if let Some(o) = gated {
+                    o
+                } else if let Op::CommitThenDelete(_) = op {
                     let mut pc = w.prepare_commit().or_fail("prepare_commit_failed")?;
                     pc.set_payload(&payload);
                     let fut = pc.commit_future();
@@ -563,7 +572,7 @@ impl Env {
                         late_delete = Some((u, od));
                     }
                     fut.wait().or_fail("commit_failed")?
-                } else if matches!(op, Op::Commit) {
+                } else if matches!(op, Op::Commit | Op::CommitDuringMergeEnd) {
                     let mut pc = w.prepare_commit().or_fail("prepare_commit_failed")?;
                     pc.set_payload(&payload);
                     pc.commit().or_fail("commit_failed")?
@@ -711,6 +720,61 @@ impl Env {
         Ok(())
     }
 
+    /// see Op::CommitDuringMergeEnd; None = the schedule does not apply here (the caller commits plainly)
+    fn commit_during_merge_end(&mut self, payload: &str) -> Result<Option<u64>, Failure> {
+        use crate::simdir::{GateSpec, K};
+        use std::time::{Duration, Instant};
+        let DirHandle::Sim(sd) = &self.dir else { return Ok(None) };
+        let sd = sd.clone();
+        let ids = self.index.searchable_segment_ids().or_fail("segment_ids_failed")?;
+        if ids.len() < 2 {
+            return Ok(None);
+        }
+        let gm = sd.add_gate(GateSpec { thread: "merge_thread".into(), kind: Some(K::Create), path_suffix: String::new(), nth: 0, max_hold: Duration::from_millis(300) });
+        let merge_future = self.writer.as_mut().unwrap().merge(&ids);
+        if !sd.wait_reached(gm, Duration::from_millis(120)) {
+            // the merge was refused (segments already in a merge) or something else holds it up: plain commit
+            sd.disarm(gm);
+            let _ = merge_future.wait();
+            return Ok(None);
+        }
+        let gu = sd.add_gate(GateSpec { thread: "segment_updater".into(), kind: Some(K::AtomicWrite), path_suffix: "meta.json".into(), nth: 0, max_hold: Duration::from_millis(300) });
+        let commit_future = {
+            let w = self.writer.as_mut().unwrap();
+            match w.prepare_commit() {
+                Ok(mut pc) => {
+                    pc.set_payload(payload);
+                    pc.commit_future()
+                }
+                Err(e) => {
+                    sd.disarm(gm);
+                    sd.disarm(gu);
+                    let _ = merge_future.wait();
+                    return Err(Failure::new("prepare_commit_failed", format!("{e:?}")));
+                }
+            }
+        };
+        let held = sd.wait_reached(gu, Duration::from_millis(200));
+        // let the merge run to its end while the commit is inside its metadata write
+        sd.release(gm);
+        let ops_by_merge = |sd: &crate::simdir::SimDir| sd.clone_log().iter().rev().take(4000).filter(|o| o.thread.starts_with("merge_thread")).count();
+        let t0 = Instant::now();
+        let mut last = (ops_by_merge(&sd), Instant::now());
+        while held && t0.elapsed() < Duration::from_millis(200) {
+            std::thread::sleep(Duration::from_millis(2));
+            let n = ops_by_merge(&sd);
+            if n != last.0 {
+                last = (n, Instant::now());
+            } else if last.1.elapsed() > Duration::from_millis(12) {
+                break;
+            }
+        }
+        sd.disarm(gu);
+        let res = commit_future.wait();
+        let _ = merge_future.wait();
+        self.stats.commits_during_merge_end += held as u32;
+        res.map(Some).or_fail("commit_failed")
+    }
     pub fn pending_len(&self) -> usize {
         self.pending.len()
     }
@@ -752,6 +816,16 @@ impl Env {
 
     /// A freshly loaded searcher must contain exactly `self.committed`.
     pub fn verify(&self, when: &str) -> CaseResult {
+        if self.commits > 0 {
+            // the metadata names the last commit (opstamp, payload), whatever merge has rewritten it since
+            let (opstamp, payload) = {
+                let meta = self.index.load_metas().or_fail("load_metas_failed")?;
+                (meta.opstamp, meta.payload.clone())
+            };
+            let expected = format!("c{}", self.commits);
+            ensure!(payload.as_deref() == Some(expected.as_str()), "meta_payload_not_last_commit", "{when}: meta.json carries payload {payload:?}, the last commit set {expected}");
+            ensure!(opstamp == self.last_commit_opstamp, "meta_opstamp_not_last_commit", "{when}: meta.json carries opstamp {opstamp}, the last commit returned {}", self.last_commit_opstamp);
+        }
         let (_r, s) = self.searcher()?;
         verify_searcher(&s, &self.f, &self.committed, when).map_err(|f| {
             if self.delete_all_while_dirty && f.sig.starts_with("content_") {
